@@ -14,7 +14,7 @@ void __sanitizer_finish_switch_fiber(void *fake, const void **bottom_old, size_t
 }
 
 // ------------------------------------------------------------------ case
-struct WOp { int size = 16; int api = 0; template <class A> void io(A &a) { a(size)(api); } };   // api: 0 write 1 writeArray 2 raw_write
+struct WOp { int size = 16; int api = 0; template <class A> void io(A &a) { a(size)(api); } };   // api%3: 0 write 1 writeArray 2 raw_write ; api/3: 0 "/m" ,is  1 "/m" ,ib (blob payload)
 struct Case {
   int maxmsg = 16, nmsgs = 2;
   std::vector<WOp> wops;
@@ -25,7 +25,7 @@ struct Case {
   template <class A> void io(A &a) { a(maxmsg)(nmsgs)(wops)(rops)(first)(mode)(choices); }
   std::string describe() const {
     std::string d = "ThreadLink(" + std::to_string(maxmsg) + "," + std::to_string(nmsgs) + ") writer:";
-    for (auto &w : wops) d += " " + std::string(w.api == 0 ? "w" : w.api == 1 ? "wa" : "raw") + std::to_string(w.size);
+    for (auto &w : wops) d += " " + std::string(w.api % 3 == 0 ? "w" : w.api % 3 == 1 ? "wa" : "raw") + (w.api / 3 ? "(blob)" : "") + std::to_string(w.size);
     d += " reader:";
     for (int r : rops) d += r == 0 ? " read" : r == 1 ? " has" : r == 2 ? " lread" : " lhas";
     d += mode == 0 ? " schedule(first=" + std::to_string(first) + "):" : " preempt-at(first=" + std::to_string(first) + "):";
@@ -48,7 +48,7 @@ Case vf_generate() {
     else if (k < 8) w.size = c.maxmsg;
     else if (k < 9) w.size = c.maxmsg + 4 * vf::pick<int>(1, 2);          // too long
     else w.size = 16;
-    w.api = vf::pickn(3);
+    w.api = vf::pickn(3) + 3 * (vf::chance(35) ? 1 : 0);
     c.wops.push_back(w);
   }
   for (int i = 0; i < nr; i++) c.rops.push_back(vf::chance(60) ? 0 : vf::pick<int>(1, 3));
@@ -115,9 +115,16 @@ struct WRec { int seq, size; long b, e; bool toolong; };
 struct RRec { bool lookahead; int seq; bool intact; long b, e; };
 struct HRec { bool lookahead, result; long b, e; size_t reads_before; };
 
-static std::string make_msg(int seq, int size) {
+static int blob_len(int seq, int size) { return size <= 16 ? 0 : size - 16 - seq % 4; }
+static std::string make_msg(int seq, int size, int shape) {
   refosc::Val a, s;
   a.t = 'i'; a.u = (uint32_t)seq;
+  if (shape == 1) {
+    s.t = 'b';
+    int L = blob_len(seq, size);
+    for (int i = 0; i < L; i++) s.s += (char)((seq * 11 + i * 3) & 0xff);
+    return refosc::encode("/m", "ib", {a, s});
+  }
   s.t = 's';
   int L = size - 13;
   for (int i = 0; i < L; i++) s.s += (char)('a' + (seq * 7 + i) % 26);
@@ -138,7 +145,7 @@ static Outcome execute(const Case &c) {
   std::vector<std::string> msgs;
   std::vector<std::unique_ptr<char[]>> rawbuf;
   for (size_t i = 0; i < c.wops.size(); i++) {
-    msgs.push_back(make_msg((int)i + 1, c.wops[i].size));
+    msgs.push_back(make_msg((int)i + 1, c.wops[i].size, c.wops[i].api / 3));
     rawbuf.emplace_back(new char[msgs.back().size() + 8]);
     memset(rawbuf.back().get(), 0, msgs.back().size() + 8);
     memcpy(rawbuf.back().get(), msgs.back().data(), msgs.back().size());
@@ -148,10 +155,18 @@ static Outcome execute(const Case &c) {
   pw.fn = [&] {
     for (size_t i = 0; i < c.wops.size(); i++) {
       WRec r; r.seq = (int)i + 1; r.size = c.wops[i].size; r.toolong = c.wops[i].size > c.maxmsg; r.b = g_clock;
-      std::string payload = msgs[i].substr(12, (size_t)c.wops[i].size - 13);
-      if (c.wops[i].api == 0) tl.write("/m", "is", (int)i + 1, payload.c_str());
-      else if (c.wops[i].api == 1) { rtosc_arg_t a[2]; a[0].i = (int)i + 1; a[1].s = payload.c_str(); tl.writeArray("/m", "is", a); }
-      else tl.raw_write(rawbuf[i].get());
+      const int call = c.wops[i].api % 3, shape = c.wops[i].api / 3;
+      if (shape == 1) {
+        std::string payload = msgs[i].substr(16, (size_t)blob_len((int)i + 1, c.wops[i].size));
+        if (call == 0) tl.write("/m", "ib", (int)i + 1, (int32_t)payload.size(), payload.data());
+        else if (call == 1) { rtosc_arg_t a[2]; a[0].i = (int)i + 1; a[1].b.len = (int32_t)payload.size(); a[1].b.data = (uint8_t *)&payload[0]; tl.writeArray("/m", "ib", a); }
+        else tl.raw_write(rawbuf[i].get());
+      } else {
+        std::string payload = msgs[i].substr(12, (size_t)c.wops[i].size - 13);
+        if (call == 0) tl.write("/m", "is", (int)i + 1, payload.c_str());
+        else if (call == 1) { rtosc_arg_t a[2]; a[0].i = (int)i + 1; a[1].s = payload.c_str(); tl.writeArray("/m", "is", a); }
+        else tl.raw_write(rawbuf[i].get());
+      }
       r.e = g_clock;
       W.push_back(r);
     }
@@ -159,7 +174,7 @@ static Outcome execute(const Case &c) {
   auto take = [&](const char *m, bool la, long b) {
     RRec r; r.lookahead = la; r.b = b; r.e = g_clock; r.seq = -1; r.intact = false;
     size_t l = rtosc_message_length(m, (size_t)c.maxmsg);
-    if (l >= 16 && !strcmp(m, "/m") && !strcmp(rtosc_argument_string(m), "is")) {
+    if (l >= 16 && !strcmp(m, "/m") && (!strcmp(rtosc_argument_string(m), "is") || !strcmp(rtosc_argument_string(m), "ib"))) {
       int seq = rtosc_argument(m, 0).i;
       r.seq = seq;
       if (seq >= 1 && seq <= (int)msgs.size() && l == msgs[(size_t)seq - 1].size() && !memcmp(m, msgs[(size_t)seq - 1].data(), l)) r.intact = true;
@@ -327,7 +342,7 @@ static std::string enum_rec(Case &c, int k, long from, vf::Ctx &ctx, uint64_t &c
 }
 std::string vf_enumerate(vf::Ctx &ctx, int worker, int nworkers, long budget) {
   int k = (int)budget;
-  struct Hst { int maxmsg, nmsgs; std::vector<int> ws; std::vector<int> rs; };
+  struct Hst { int maxmsg, nmsgs; std::vector<int> ws; std::vector<int> rs; int blob = 0; };
   std::vector<Hst> hs = {
       {16, 1, {16}, {0}},                       // 1 write || hasNext+read
       {16, 2, {16, 16}, {0, 0}},                // second write needs the first read when the ring is 31 bytes
@@ -336,6 +351,7 @@ std::string vf_enumerate(vf::Ctx &ctx, int worker, int nworkers, long budget) {
       {16, 2, {16, 16}, {2, 0, 2}},             // lookahead, then resynchronising read
       {16, 2, {20, 16}, {0, 1}},                // over-long message is dropped whole
       {24, 1, {16, 16}, {0, 0}},                // single-message ring
+      {24, 2, {16, 24, 24}, {0, 0, 0}, 1},      // blob messages, the third one wraps around inside its blob
   };
   uint64_t count = 0;
   for (size_t h = 0; h < hs.size(); h++)
@@ -343,7 +359,7 @@ std::string vf_enumerate(vf::Ctx &ctx, int worker, int nworkers, long budget) {
       for (int first = 0; first < 2; first++) {
         Case c;
         c.maxmsg = hs[h].maxmsg; c.nmsgs = hs[h].nmsgs;
-        for (int s : hs[h].ws) { WOp w; w.size = s; w.api = api; c.wops.push_back(w); }
+        for (int s : hs[h].ws) { WOp w; w.size = s; w.api = api + 3 * (hs[h].blob && s > 16); c.wops.push_back(w); }
         c.rops = hs[h].rs;
         c.first = first; c.mode = 1;
         int kk = (h == 0 && k >= 3) ? 64 : k;    // thorough: the tiny history gets every schedule (bound above the number of decisions)
